@@ -363,62 +363,8 @@ func TestC04Sampling(t *testing.T) {
 	name := Name
 	p := c04P
 	sub := "sampling/" + name
-	// Rejection-boundary inputs for ExpandA: (rho, nonce) whose SHAKE128 stream contains a 23-bit
-	// candidate equal to q (must be rejected) or q-1 (must be accepted). Found by enumeration with
-	// the reference; random seeds reach this with probability 2^-22 per candidate only.
-	hitsQ := 0
-	for sweep := 0; sweep < 4 && hitsQ < 2; sweep++ {
-		var rho [32]byte
-		vlib.ExpandInto(rho[:], uint64(vlib.Seed)*977+uint64(vlib.Shard)*31+uint64(sweep))
-		for nonce := 0; nonce < 1<<16; nonce++ {
-			in := append(append([]byte{}, rho[:]...), byte(nonce), byte(nonce>>8))
-			cls := ""
-			for _, c := range mldsa.RejNTTCandidates(in) {
-				if c == common.Q {
-					cls = "candidate=q"
-				} else if c == common.Q-1 && cls == "" {
-					cls = "candidate=q-1"
-				}
-			}
-			if cls == "" {
-				continue
-			}
-			if cls == "candidate=q" {
-				hitsQ++
-			}
-			vlib.Eval(sub)
-			vlib.NonTrivial(sub, "rejection-boundary/"+cls, in)
-			want := mldsa.RejNTTPoly(in)
-			var polys [5]common.Poly
-			PolyDeriveUniform(&polys[4], &rho, uint16(nonce))
-			variants := []*common.Poly{&polys[4]}
-			if DeriveX4Available {
-				for lane := 0; lane < 4; lane++ {
-					var ptr [4]*common.Poly
-					var nonces [4]uint16
-					for k := range ptr {
-						ptr[k] = new(common.Poly)
-						nonces[k] = uint16(nonce + 1 + k)
-					}
-					ptr[lane] = &polys[lane]
-					nonces[lane] = uint16(nonce)
-					PolyDeriveUniformX4(ptr, &rho, nonces)
-					variants = append(variants, &polys[lane])
-				}
-			}
-			for vi, got := range variants {
-				for i := range got {
-					if int64(got[i]) != want[i] {
-						what := "PolyDeriveUniform"
-						if vi > 0 {
-							what = "PolyDeriveUniformX4"
-						}
-						vlib.ReportDirect(t, "C04/sample/"+name+"/"+what, fmt.Sprintf("rho %x nonce %d (%s): coefficient %d = %d, specification %d", rho, nonce, cls, i, got[i], want[i]), map[string]interface{}{"rho": fmt.Sprintf("%x", rho), "nonce": nonce})
-						return
-					}
-				}
-			}
-		}
+	if !c04SamplerTails(t, name, sub) {
+		return
 	}
 	vlib.Check(t, vlib.N(150, 2000), func(t *rapid.T) {
 		vlib.Eval(sub)
@@ -636,4 +582,166 @@ func TestC04Hedged(t *testing.T) {
 			}
 		}
 	})
+}
+
+// c04CmpPoly compares a sampled polynomial (mod q) with the reference outside rapid.
+func c04CmpPoly(t *testing.T, name, what, input string, got *common.Poly, want *mldsa.Poly, replay map[string]interface{}) bool {
+	for i := range got {
+		if int64(got[i]%common.Q) != want[i] || got[i] > 2*common.Q {
+			return vlib.ReportDirect(t, "C04/sample/"+name+"/"+what, fmt.Sprintf("%s: coefficient %d = %d, specification %d", input, i, got[i], want[i]), replay)
+		}
+	}
+	return true
+}
+
+// c04SamplerTails feeds the rejection samplers with inputs from the far tail of their
+// rejection behaviour, found by scanning with the reference's byte counters (mldsa.Scanner):
+//
+//	ExpandA / RejNTTPoly:      (rho, nonce) with a 23-bit candidate exactly q or q-1, and the
+//	                           inputs with the most rejected candidates;
+//	ExpandS / RejBoundedPoly:  (rho', nonce) that read the most SHAKE-256 bytes, in particular all
+//	                           that need one block more than usual (eta = 4: a third block,
+//	                           probability 6.5e-6 per call);
+//	SampleInBall:              seeds with the most rejected index bytes.
+//
+// ExpandMask has no rejection step. All scans are deterministic functions of (VERIF_SEED, shard).
+func c04SamplerTails(t *testing.T, name, sub string) bool {
+	p := c04P
+	sc := mldsa.NewScanner()
+	base := uint64(vlib.Seed)*977 + uint64(vlib.Shard)*31
+	// --- ExpandA
+	topA := &mldsa.TopK{K: 24}
+	hitsQ := 0
+	checkA := func(in []byte, cls string) bool {
+		var rho [32]byte
+		copy(rho[:], in[:32])
+		nonce := int(in[32]) | int(in[33])<<8
+		vlib.Eval(sub)
+		vlib.NonTrivial(sub, cls, in)
+		want := mldsa.RejNTTPoly(in)
+		rp := map[string]interface{}{"rho": fmt.Sprintf("%x", rho), "nonce": nonce}
+		desc := fmt.Sprintf("rho %x nonce %d (%s)", rho, nonce, cls)
+		var single common.Poly
+		PolyDeriveUniform(&single, &rho, uint16(nonce))
+		if !c04CmpPoly(t, name, "PolyDeriveUniform", desc, &single, &want, rp) {
+			return false
+		}
+		if DeriveX4Available {
+			for lane := 0; lane < 4; lane++ {
+				var ptr [4]*common.Poly
+				var nonces [4]uint16
+				for k := range ptr {
+					ptr[k] = new(common.Poly)
+					nonces[k] = uint16(nonce + 1 + k)
+				}
+				nonces[lane] = uint16(nonce)
+				PolyDeriveUniformX4(ptr, &rho, nonces)
+				if !c04CmpPoly(t, name, "PolyDeriveUniformX4", desc, ptr[lane], &want, rp) {
+					return false
+				}
+			}
+		}
+		return true
+	}
+	for sweep := 0; sweep < 4 && hitsQ < 2; sweep++ {
+		var rho [32]byte
+		vlib.ExpandInto(rho[:], base+uint64(sweep))
+		for nonce := 0; nonce < 1<<16; nonce++ {
+			in := append(append([]byte{}, rho[:]...), byte(nonce), byte(nonce>>8))
+			cls := ""
+			cands := mldsa.RejNTTCandidates(in)
+			for _, c := range cands {
+				if c == common.Q {
+					cls = "rejection-boundary/candidate=q"
+				} else if c == common.Q-1 && cls == "" {
+					cls = "rejection-boundary/candidate=q-1"
+				}
+			}
+			topA.Offer(len(cands)-common.N, in)
+			if cls == "" {
+				continue
+			}
+			if cls == "rejection-boundary/candidate=q" {
+				hitsQ++
+			}
+			if !checkA(in, cls) {
+				return false
+			}
+		}
+	}
+	for _, it := range topA.Items {
+		if !checkA(it.Data, fmt.Sprintf("tail/ExpandA/rejections>=%d", it.Score/2*2)) {
+			return false
+		}
+	}
+	// --- ExpandS
+	usual := 272 // two SHAKE-256 blocks
+	sweeps := 1
+	if Eta == 4 {
+		sweeps = 8
+	}
+	topS := &mldsa.TopK{K: 24}
+	extra := &mldsa.TopK{K: 64}
+	for sweep := 0; sweep < sweeps; sweep++ {
+		var rhop [66]byte
+		vlib.ExpandInto(rhop[:64], base+1000+uint64(sweep))
+		for nonce := 0; nonce < 1<<16; nonce++ {
+			rhop[64], rhop[65] = byte(nonce), byte(nonce>>8)
+			b := sc.RejBoundedBytes(Eta, rhop[:])
+			if b > usual {
+				extra.Offer(b, rhop[:])
+			} else {
+				topS.Offer(b, rhop[:])
+			}
+		}
+	}
+	for _, it := range append(append([]mldsa.TopItem{}, extra.Items...), topS.Items...) {
+		var seed [64]byte
+		copy(seed[:], it.Data[:64])
+		nonce := uint16(it.Data[64]) | uint16(it.Data[65])<<8
+		cls := fmt.Sprintf("tail/ExpandS/blocks=%d", (it.Score+135)/136)
+		vlib.Eval(sub)
+		vlib.NonTrivial(sub, cls, it.Data)
+		var cp common.Poly
+		PolyDeriveUniformLeqEta(&cp, &seed, nonce)
+		want := p.RejBoundedPoly(it.Data)
+		if !c04CmpPoly(t, name, "PolyDeriveUniformLeqEta", fmt.Sprintf("rho' %x nonce %d (%d XOF bytes)", seed, nonce, it.Score), &cp, &want, map[string]interface{}{"rhop": fmt.Sprintf("%x", seed), "nonce": nonce}) {
+			return false
+		}
+		for i := range cp {
+			if cp[i] < common.Q-Eta || cp[i] > common.Q+Eta {
+				return vlib.ReportDirect(t, "C04/sample/"+name+"/PolyDeriveUniformLeqEta", fmt.Sprintf("rho' %x nonce %d: coefficient %d = %d outside the documented range [q-eta, q+eta]", seed, nonce, i, cp[i]), map[string]interface{}{"rhop": fmt.Sprintf("%x", seed), "nonce": nonce})
+			}
+		}
+	}
+	// --- SampleInBall
+	topB := &mldsa.TopK{K: 24}
+	cseed := make([]byte, CTildeSize)
+	vlib.ExpandInto(cseed, base+2000)
+	for ctr := 0; ctr < 60000; ctr++ {
+		cseed[0], cseed[1], cseed[2] = byte(ctr), byte(ctr>>8), byte(ctr>>16)
+		topB.Offer(sc.InBallBytes(Tau, cseed), cseed)
+	}
+	for _, it := range topB.Items {
+		cls := fmt.Sprintf("tail/SampleInBall/rejections>=%d", (it.Score-8-Tau)/4*4)
+		vlib.Eval(sub)
+		vlib.NonTrivial(sub, cls, it.Data)
+		want := p.SampleInBall(it.Data)
+		var cp common.Poly
+		PolyDeriveUniformBall(&cp, it.Data)
+		rp := map[string]interface{}{"ctilde": fmt.Sprintf("%x", it.Data)}
+		if !c04CmpPoly(t, name, "PolyDeriveUniformBall", fmt.Sprintf("seed %x (%d XOF bytes)", it.Data, it.Score), &cp, &want, rp) {
+			return false
+		}
+		if DeriveX4Available {
+			var ps [4]common.Poly
+			PolyDeriveUniformBallX4([4]*common.Poly{&ps[0], &ps[1], &ps[2], &ps[3]}, it.Data)
+			for i := range ps {
+				if !c04CmpPoly(t, name, "PolyDeriveUniformBallX4", fmt.Sprintf("seed %x", it.Data), &ps[i], &want, rp) {
+					return false
+				}
+			}
+		}
+	}
+	return true
 }
